@@ -98,6 +98,10 @@ pub struct Case {
     pub rows: Vec<RowT>,
     pub cols: Vec<ColT>,
     pub light: bool,
+    /// styles with an odd index (and the targets that carry them) are applied only AFTER the
+    /// first save+reload, i.e. they are interned against a stylesheet that came from a file
+    #[serde(default)]
+    pub two_phase: bool,
 }
 
 #[derive(Debug, Clone, Default, PartialEq)]
@@ -127,6 +131,13 @@ impl Case {
     }
     fn sheet_of(&self, s: u8) -> usize {
         s as usize % self.nsheets()
+    }
+    /// 1 = applied before the first save, 2 = applied to the reloaded workbook
+    fn phase(&self, style: Option<usize>) -> u8 {
+        match style {
+            Some(i) if self.two_phase && i % 2 == 1 => 2,
+            _ => 1,
+        }
     }
     /// resolved column settings (later entries override earlier ones per attribute)
     fn col_model(&self) -> BTreeMap<(usize, u32), ColSet> {
@@ -204,12 +215,20 @@ impl Case {
     }
 }
 
-fn build(case: &Case, styles: &[Style]) -> Spreadsheet {
+fn new_book(case: &Case) -> Spreadsheet {
     let mut book = umya_spreadsheet::new_file_empty_worksheet();
     for s in 0..case.nsheets() {
         book.new_sheet(format!("S{}", s + 1)).expect("distinct legal names");
     }
+    book
+}
+
+/// apply the targets of one phase through the public API
+fn build(book: &mut Spreadsheet, case: &Case, styles: &[Style], phase: u8) {
     for ((sheet, col), cs) in case.col_model() {
+        if case.phase(cs.style) != phase {
+            continue;
+        }
         let ws = book.get_sheet_mut(&sheet).unwrap();
         let c = ws.get_column_dimension_by_number_mut(&col);
         if let Some(i) = cs.style {
@@ -226,6 +245,9 @@ fn build(case: &Case, styles: &[Style]) -> Spreadsheet {
         }
     }
     for ((sheet, row), rs) in case.row_model() {
+        if case.phase(rs.style) != phase {
+            continue;
+        }
         let ws = book.get_sheet_mut(&sheet).unwrap();
         let r = ws.get_row_dimension_mut(&row);
         if let Some(i) = rs.style {
@@ -239,6 +261,9 @@ fn build(case: &Case, styles: &[Style]) -> Spreadsheet {
         }
     }
     for ((sheet, row, col), (i, value)) in case.cell_model() {
+        if case.phase(Some(i)) != phase {
+            continue;
+        }
         let ws = book.get_sheet_mut(&sheet).unwrap();
         let c = ws.get_cell_mut((col, row));
         if value {
@@ -248,7 +273,6 @@ fn build(case: &Case, styles: &[Style]) -> Spreadsheet {
         // is API behaviour outside this property
         c.set_style(styles[i].clone());
     }
-    book
 }
 
 // ---------------------------------------------------------------------------------------
@@ -297,8 +321,21 @@ fn judge_style(what: &str, target: &str, i: usize, exp: &[StyleProj], got: &Styl
     let d = e.diff(got);
     let (attr, ev, gv) = &d[0];
     let comp = component_of(attr);
-    // (ii) did it come back with the component of another style of this workbook?
+    let dflt = default_proj();
+    if *got == dflt {
+        return Some(Verdict::fail(
+            format!("{}{}/style-lost", gen, what),
+            format!("{} {} was given style #{} ({:?}) and came back with the default formatting", what, target, i, e.diff(got)),
+        ));
+    }
     let gcomp = got.component(comp);
+    if gcomp == dflt.component(comp) && d.iter().filter(|x| component_of(x.0) == comp).count() > 1 {
+        return Some(Verdict::fail(
+            format!("{}{}/reset-to-default", gen, comp),
+            format!("{} {} style #{}: the whole {} came back as the workbook default; expected {:?} (all differences: {:?})", what, target, i, comp, e.component(comp), d),
+        ));
+    }
+    // (ii) did it come back with the component of another style of this workbook?
     for (j, o) in exp.iter().enumerate() {
         if j != i && o.component(comp) == gcomp {
             let apart: Vec<&str> = e.diff(o).into_iter().map(|x| x.0).filter(|a| component_of(a) == comp).collect();
@@ -318,12 +355,6 @@ fn judge_style(what: &str, target: &str, i: usize, exp: &[StyleProj], got: &Styl
             ));
         }
     }
-    if *got == default_proj() {
-        return Some(Verdict::fail(
-            format!("{}{}/style-lost", gen, what),
-            format!("{} {} was given style #{} ({:?}) and came back with the default formatting", what, target, i, e.diff(got)),
-        ));
-    }
     Some(Verdict::fail(
         format!("{}{}/{}->{}", gen, attr, value_class(attr, ev), value_class(attr, gv)),
         format!("{} {} style #{}: {} expected {:?}, reloaded {:?} (all differences: {:?})", what, target, i, attr, ev, gv, d),
@@ -334,12 +365,16 @@ fn default_width() -> f64 {
     *umya_spreadsheet::Column::default().get_width()
 }
 
-fn compare(case: &Case, exp: &[StyleProj], book: &Spreadsheet, gen: &str) -> Option<Verdict> {
+/// compare every target applied up to and including `upto` (phase) with its expectation
+fn compare(case: &Case, exp: &[StyleProj], book: &Spreadsheet, gen: &str, upto: u8) -> Option<Verdict> {
     if book.get_sheet_count() != case.nsheets() {
         return Some(Verdict::fail(format!("{}sheets/count", gen), format!("{} sheets reloaded, {} saved", book.get_sheet_count(), case.nsheets())));
     }
     let dflt = default_proj();
     for ((sheet, row, col), (i, _)) in case.cell_model() {
+        if case.phase(Some(i)) > upto {
+            continue;
+        }
         let ws = book.get_sheet(&sheet).unwrap();
         let got = effective(ws.get_style((col, row)));
         let at = format!("sheet {} {}{}", sheet, crate::props::c17::ref_col_name(col), row);
@@ -348,6 +383,9 @@ fn compare(case: &Case, exp: &[StyleProj], book: &Spreadsheet, gen: &str) -> Opt
         }
     }
     for ((sheet, row), rs) in case.row_model() {
+        if case.phase(rs.style) > upto {
+            continue;
+        }
         let ws = book.get_sheet(&sheet).unwrap();
         let at = format!("sheet {} row {}", sheet, row);
         let r = ws.get_row_dimension(&row);
@@ -377,6 +415,9 @@ fn compare(case: &Case, exp: &[StyleProj], book: &Spreadsheet, gen: &str) -> Opt
         }
     }
     for ((sheet, col), cs) in case.col_model() {
+        if case.phase(cs.style) > upto {
+            continue;
+        }
         let ws = book.get_sheet(&sheet).unwrap();
         let at = format!("sheet {} column {}", sheet, crate::props::c17::ref_col_name(col));
         let c = ws.get_column_dimension_by_number(&col);
@@ -521,6 +562,7 @@ fn check(case: &Case, obs: &mut Obs) -> Verdict {
         }
     ));
     obs.class(if case.light { "writer:light" } else { "writer:standard" });
+    obs.class(if case.two_phase { "two-phase" } else { "one-phase" });
     obs.class(format!("sheets:{}", case.nsheets()));
     let cm = case.col_model();
     let rm = case.row_model();
@@ -550,22 +592,32 @@ fn check(case: &Case, obs: &mut Obs) -> Verdict {
             return Verdict::Discard(format!("pre-save model mismatch for style #{}: {:?}", i, exp[i].diff(&pre)));
         }
     }
-    let book = match guard(|| build(case, &styles)) {
-        Ok(b) => b,
-        Err(p) => return Verdict::fail(format!("build/panic:{}", p.site()), p.short()),
-    };
-    if let Some(Verdict::Fail { key, detail }) = compare(case, &exp, &book, "") {
+    let mut book = new_book(case);
+    if let Err(p) = guard(|| build(&mut book, case, &styles, 1)) {
+        return Verdict::fail(format!("build/panic:{}", p.site()), p.short());
+    }
+    if let Some(Verdict::Fail { key, detail }) = compare(case, &exp, &book, "", 1) {
         return Verdict::Discard(format!("pre-save workbook does not show the spec: {} {}", key, detail));
     }
 
     let bytes1 = lib!("save", save(&book, case.light));
-    let book2 = lib!("reload", load(&bytes1));
-    if let Some(v) = compare(case, &exp, &book2, "") {
+    let mut book2 = lib!("reload", load(&bytes1));
+    if let Some(v) = compare(case, &exp, &book2, "", 1) {
         return v;
+    }
+    // two-phase: the remaining styles are added to the workbook that came from the file
+    let gen2 = if case.two_phase { "phase2:" } else { "resave:" };
+    if case.two_phase {
+        if let Err(p) = guard(|| build(&mut book2, case, &styles, 2)) {
+            return Verdict::fail(format!("phase2:build/panic:{}", p.site()), p.short());
+        }
+        if let Some(Verdict::Fail { key, detail }) = compare(case, &exp, &book2, "", 2) {
+            return Verdict::Discard(format!("pre-save workbook (phase 2) does not show the spec: {} {}", key, detail));
+        }
     }
     let bytes2 = lib!("resave", save(&book2, case.light));
     let book3 = lib!("reload2", load(&bytes2));
-    if let Some(v) = compare(case, &exp, &book3, "resave:") {
+    if let Some(v) = compare(case, &exp, &book3, gen2, 2) {
         return v;
     }
     let bytes3 = lib!("resave2", save(&book3, case.light));
@@ -585,24 +637,36 @@ fn check(case: &Case, obs: &mut Obs) -> Verdict {
     };
     for t in TABLES {
         let (a, b, c) = (count_of(&t1, t), count_of(&t2, t), count_of(&t3, t));
-        if b > a {
+        // (in two-phase mode generation 2 legitimately has more styles than generation 1)
+        if b > a && !case.two_phase {
             return Verdict::fail(format!("tables/{}-grows:gen1->gen2", t), format!("{}: {} entries after the first save, {} after load+save (third: {})", t, a, b, c));
         }
         if c > b {
             return Verdict::fail(format!("tables/{}-grows:gen2->gen3", t), format!("{}: {} -> {} -> {} entries over three saves", t, a, b, c));
         }
     }
-    let mut distinct: Vec<&Style> = Vec::new();
-    for s in &styles {
-        if !distinct.iter().any(|d| *d == s) {
-            distinct.push(s);
+    // Distinct styles are counted the way the library can possibly tell them apart: as `Style`
+    // values (PartialEq), separately per phase: a style added to a RELOADED workbook is a
+    // different value from its materialised twin that came from the file (font None vs
+    // Some(default font) ...), so it legitimately gets an xf of its own; the statement only
+    // forbids growth by saving.
+    let mut distinct = 0u32;
+    for phase in [1u8, 2] {
+        let mut seen: Vec<&Style> = Vec::new();
+        for (i, s) in styles.iter().enumerate() {
+            if case.phase(Some(i)) == phase && !seen.iter().any(|d| *d == s) {
+                seen.push(s);
+            }
         }
+        distinct += seen.len() as u32;
     }
-    let xfs = count_of(&t1, "cellXfs");
-    if xfs > distinct.len() as u32 + base_xfs() {
+    // every style is applied in exactly one phase, so the bound is checked on the first
+    // generation that holds all of them
+    let xfs = count_of(if case.two_phase { &t2 } else { &t1 }, "cellXfs");
+    if xfs > distinct + base_xfs() {
         return Verdict::fail(
             "tables/cellXfs-exceeds-distinct-styles",
-            format!("{} cellXfs for {} distinct styles (+{} of an empty workbook)", xfs, distinct.len(), base_xfs()),
+            format!("{} cellXfs for {} distinct styles (+{} of an empty workbook)", xfs, distinct, base_xfs()),
         );
     }
     Verdict::Pass
@@ -683,8 +747,9 @@ fn strategy(t: Tier) -> BoxedStrategy<Case> {
         prop::collection::vec(row, 0..=targets),
         prop::collection::vec(col, 0..=targets),
         any::<bool>(),
+        prop::bool::weighted(0.3),
     )
-        .prop_map(|(styles, sheets, cells, rows, cols, light)| Case { styles, sheets, cells, rows, cols, light })
+        .prop_map(|(styles, sheets, cells, rows, cols, light, two_phase)| Case { styles, sheets, cells, rows, cols, light, two_phase })
         .boxed()
 }
 
